@@ -668,7 +668,7 @@ void gen_c14(Plan& p, bool thorough) {
 
   p.tasks.resize(1);
   static const int dszs[3] = {32, 48, 64};
-  uint64_t nrand = thorough ? 600 : default_runs("C14", "quick");
+  uint64_t nrand = thorough ? 6000 : default_runs("C14", "quick");
   if (thorough && p.run >= nrand) {
     // exhaustive: every input length 0..3*rate+1, every two-way absorb split, a two-way squeeze split
     uint64_t j = p.run - nrand;
@@ -1030,8 +1030,8 @@ uint64_t default_runs(const std::string& prop, const std::string& tier) {
     uint64_t q, t;
   };
   static const R tab[] = {{"C01", 480, 4800},  {"C02", 600, 2400 + 384}, {"C03", 288, 2400}, {"C04", 120, 960},  {"C05", 480, 4800}, {"C06", 480, 2880},
-                          {"C07", 144, 288},   {"C09", 480, 2400},       {"C10", 480, 1920},  {"C11", 96, 192},   {"C12", 144, 12 * 36},  {"C13", 721, 3601},
-                          {"C14", 1440, 600 + 4 * 507}, {"C15", 480, 7200},  {"C16", 288, 1920},  {"C17", 25, 49}, {"C18", 180, 12 * 14 * 16 + 12 * 14}};
+                          {"C07", 288, 576},   {"C09", 480, 2400},       {"C10", 480, 1920},  {"C11", 160, 320},   {"C12", 144, 12 * 36},  {"C13", 721, 3601},
+                          {"C14", 4800, 6000 + 4 * 507}, {"C15", 480, 7200},  {"C16", 288, 1920},  {"C17", 25, 49}, {"C18", 180, 12 * 14 * 16 + 12 * 14}};
   for (auto& r : tab)
     if (prop == r.p)
       return th ? r.t : r.q;
